@@ -43,6 +43,15 @@ FX = "vf.gen.fixtures."
 
 
 # ------------------------------------------------------------------------------------------------- parser shapes
+def _even(text):
+    import argparse
+
+    v = int(text)
+    if v % 2:
+        raise argparse.ArgumentTypeError(f"{text!r} is not an even number")
+    return v
+
+
 def build(shape, eoe):
     import dataclasses
     import pathlib
@@ -107,6 +116,8 @@ def build(shape, eoe):
         p.add_argument("--choice", choices=["x", "y"])
         p.add_argument("--n2", nargs=2, type=int)
         p.add_argument("--star", nargs="*", type=float)
+        p.add_argument("--ct", type=_even)  # a plain argparse type function that refuses values the argparse way
+        p.add_argument("--cts", type=_even, nargs="+")
     elif shape == "subcommands":
         p.add_argument("--top", type=int, default=0)
         sc = p.add_subcommands(required=True)
@@ -146,7 +157,7 @@ KEYS = {
     "groups": ["g.x", "g.h.y", "g", "g.h", "dc", "dc.inner", "dc.inner.a", "dc.inner.b", "dc.inner.b+", "dc.items", "dc.items.k", "dc.lst", "dc.lst+", "dc.opt", "dc.opt.a", "req", "cfg"],
     "classes": ["m", "m.class_path", "m.init_args", "m.init_args.p", "m.init_args.q", "m.p", "m.q", "m.dict_kwargs", "m.dict_kwargs.z", "ms", "ms+", "ms.init_args.p", "ms.p",
                 "h", "h.init_args.inner", "h.inner", "h.inner.init_args.p", "h.init_args.inner.init_args.p", "h.items", "dm", "dm.k", "dm.k.init_args.p", "um", "grp", "grp.r", "grp.f", "grp.t", "cfg", "m.help", "ms.help", "h.help"],
-    "misc": ["call", "ty", "lit", "pr", "pd", "pp", "rs", "lp", "lp+", "choice", "n2", "star", "cfg"],
+    "misc": ["call", "ty", "lit", "pr", "pd", "pp", "rs", "lp", "lp+", "choice", "n2", "star", "ct", "cts", "cfg"],
     "subcommands": ["top", "cfg", "x", "m", "m.init_args.p", "cfga", "y", "y+", "z", "z.k", "cfgc", "a.x", "b.y", "b.c.z", "subcommand", "sub2", "b.sub2", "b.d.need", "need"],
     "links": ["src", "tgt", "m", "m.init_args.p", "m.p", "hold.inner", "hold.inner.init_args.p", "hold.items", "cfg"],
 }
@@ -155,7 +166,7 @@ ENV_NAMES = {
     "flat": ["APP_I", "APP_F", "APP_S", "APP_B", "APP_LI", "APP_D", "APP_OE", "APP_T", "APP_U", "APP_ANY", "APP_CFG", "APP_POS", "APP_FLAG"],
     "groups": ["APP_G__X", "APP_G__H__Y", "APP_DC", "APP_DC__INNER__A", "APP_DC__LST", "APP_REQ", "APP_CFG"],
     "classes": ["APP_M", "APP_MS", "APP_H", "APP_DM", "APP_UM", "APP_GRP__R", "APP_GRP__F", "APP_CFG"],
-    "misc": ["APP_CALL", "APP_TY", "APP_LIT", "APP_PR", "APP_PD", "APP_PP", "APP_RS", "APP_LP", "APP_CHOICE", "APP_N2", "APP_STAR", "APP_CFG"],
+    "misc": ["APP_CALL", "APP_TY", "APP_LIT", "APP_PR", "APP_PD", "APP_PP", "APP_RS", "APP_LP", "APP_CHOICE", "APP_N2", "APP_STAR", "APP_CT", "APP_CTS", "APP_CFG"],
     "subcommands": ["APP_TOP", "APP_SUBCOMMAND", "APP_A__X", "APP_A__M", "APP_B__Y", "APP_B__SUB2", "APP_B__C__Z", "APP_B__D__NEED", "APP_A__CFGA", "APP_CFG"],
     "links": ["APP_SRC", "APP_TGT", "APP_M", "APP_HOLD__INNER", "APP_CFG"],
 }
@@ -192,13 +203,13 @@ GOODPAIRS = {
     "classes": [("m", ["SubA", FX + "SubB", '{"class_path": "SubA", "init_args": {"p": 5}}', '{"init_args": {"p": 7}}']), ("m.init_args.p", ["4"]), ("m.p", ["4"]), ("m.class_path", ["SubB"]), ("m.dict_kwargs.z", ["1"]),
                 ("ms", ['[{"class_path": "SubA"}]', "[]"]), ("ms+", ["SubA", '{"class_path": "SubB"}']), ("h", ['{"class_path": "' + FX + 'Holder", "init_args": {"inner": "SubA"}}', "null"]),
                 ("h.init_args.inner", ["SubA"]), ("dm", ['{"k": {"class_path": "SubA"}}', "{}"]), ("um", ["1", "SubA"]), ("grp.r", ["[1.5]", "null"]), ("grp.f", ["on", "null"]), ("grp.t", ['[1, "x"]'])],
-    "misc": [("call", ["math.sqrt", "abs"]), ("ty", [FX + "SubA", FX + "Base"]), ("lit", ["a", "1", "null"]), ("pr", ["@D@/ok.yaml"]), ("pd", ["@D@", "null"]), ("pp", ["a/b", "x"]), ("rs", ["abc"]),
+    "misc": [("ct", ["2", "0"]), ("cts", ["[2, 4]"]), ("call", ["math.sqrt", "abs"]), ("ty", [FX + "SubA", FX + "Base"]), ("lit", ["a", "1", "null"]), ("pr", ["@D@/ok.yaml"]), ("pd", ["@D@", "null"]), ("pp", ["a/b", "x"]), ("rs", ["abc"]),
              ("lp", ['["@D@/ok.yaml"]', "@D@/data.txt"]), ("choice", ["x", "y"]), ("star", ["1.5"]), ("cfg", ['{"rs": "q"}'])],
     "subcommands": [("top", ["1"]), ("cfg", ['{"top": 2}', '{"subcommand": "a"}', '{"a": {"x": 3}}', '{"b": {"y": [1]}}', '{"subcommand": "b", "b": {"sub2": "d", "d": {"need": 1}}}'])],
     "links": [("src", ["1", "5"]), ("m", ["SubA", '{"class_path": "SubA", "init_args": {"q": "z"}}']), ("hold.inner", ["SubA", "Base"]), ("hold.items", ['{"a": 1}', "null"]), ("cfg", ['{"src": 3}', "@D@/ok.yaml"])],
 }
 BADPAIRS = {
-    "misc": [("ty", ["a.b", "os.nonexistent", "os", "os.getcwd", FX + "Unrelated", "", ".", "a.", "1", "[1]"]), ("call", ["a.b", "os.nonexistent", "os", "1", FX + "Base", "{}"]), ("pr", ["@D@/missing.yaml", "@D@", "", "-"]),
+    "misc": [("ct", ["3", "x", "[2]", "null", "1.5"]), ("cts", ["[3]", "[2, x]", "3", "{}"]), ("ty", ["a.b", "os.nonexistent", "os", "os.getcwd", FX + "Unrelated", "", ".", "a.", "1", "[1]"]), ("call", ["a.b", "os.nonexistent", "os", "1", FX + "Base", "{}"]), ("pr", ["@D@/missing.yaml", "@D@", "", "-"]),
              ("pd", ["@D@/ok.yaml", "@D@/missing"]), ("lp", ['["@D@/missing.yaml"]', "@D@/missing.txt", "5"]), ("n2", ["1", "x"]), ("choice", ["z", ""])],
     "classes": [("m", ["a.b", "os.nonexistent", "os.getcwd", FX + "Unrelated", FX + "CALLS", "", "5", "[]"]), ("m.class_path", ["a.b", "Unrelated", "", "5"]), ("m.init_args", ["5", "[1]", '{"zz": 1}']),
                 ("ms+", ["a.b", "5", '{"class_path": 1}']), ("h.init_args.inner", ["a.b", "5", "Unrelated"]), ("dm.k", ["a.b", "5"]), ("um", ["a.b", "x", "1.5"])],
